@@ -1,6 +1,12 @@
 package main
 
 import (
+	"fmt"
+	"go/token"
+	"go/types"
+	"sort"
+	"strings"
+
 	"golang.org/x/tools/go/ssa"
 )
 
@@ -9,8 +15,8 @@ func init() {
 		"(dawg.AnagramSearcher).AllowStep", "(dawg.AnagramSearcher).AllowWord", "(dawg.AnagramSearcher).Chosen"}
 	register(&propDef{
 		id:          "C13",
-		explanation: "Decides the structural part of the last sentence ('a search leaves the Dawg unchanged ...'): PURE ((*Dawg).Search, with Searcher calls resolved by module-restricted CHA to both implementations, writes nothing reachable from the Dawg), SEARCHER-RO (AllowStep, AllowWord and Chosen of both searchers write nothing reachable from the receiver, including through the counts/currPath slices a value receiver still shares), STEP-ONLY (inside Search the only instructions that may write searcher memory are the interface calls Step and Backstep). Does not decide the result set, its order, the ranks, or that Backstep exactly undoes Step.",
-		notDecided:  []string{"that Search returns exactly the matching words in lexicographic order with correct ranks", "that Backstep restores exactly what Step changed (letter accounting)", "pairing of Step/Backstep calls in Search"},
+		explanation: "Decides the structural part of the last sentence ('a search leaves the Dawg unchanged ...'): PURE ((*Dawg).Search, with Searcher calls resolved by module-restricted CHA to both implementations, writes nothing reachable from the Dawg), SEARCHER-RO (AllowStep, AllowWord and Chosen of both searchers write nothing reachable from the receiver, including through the counts/currPath slices a value receiver still shares), STEP-ONLY (inside Search the only instructions that may write searcher memory are the interface calls Step and Backstep), BALANCE (on every path to a return each searcher has received as many Backstep as Step calls: a local stack is pushed exactly once per complete Step pass over the searchers, popped exactly once per Backstep pass, nothing else changes it, and every return is guarded by its being empty). Does not decide the result set, its order, the ranks, or that Backstep exactly undoes Step.",
+		notDecided:  []string{"that Search returns exactly the matching words in lexicographic order with correct ranks", "that Backstep restores exactly what Step changed (letter accounting)", "that Backstep exactly undoes one Step (BALANCE only counts calls)"},
 		assumptions: []string{"searchers passed to Search are the module's PatternSearcher/AnagramSearcher (closed world); a user-defined Searcher is outside the claim"},
 		run: func(c *Ctx, tier string) []*RuleResult {
 			pure := &RuleResult{Rule: "PURE", Doc: "(*Dawg).Search writes nothing reachable from the Dawg", MinInst: 1}
@@ -22,7 +28,9 @@ func init() {
 			}
 			so := &RuleResult{Rule: "STEP-ONLY", Doc: "in Search, searcher memory is written only by invoke Step / invoke Backstep", MinInst: 2}
 			stepOnly(c, so, search, 1, map[string]bool{"Step": true, "Backstep": true})
-			return []*RuleResult{pure, ro, so}
+			bal := &RuleResult{Rule: "BALANCE", Doc: "every searcher receives exactly as many Backstep as Step calls on every path to a return: a local stack is pushed once per Step pass, popped once per Backstep pass, and every return is guarded by the stack being empty", MinInst: 3}
+			ruleBalance(c, bal, "(*dawg.Dawg).Search", "Step", "Backstep")
+			return []*RuleResult{pure, ro, so, bal}
 		},
 		controls: func(ctl *Ctx) []*RuleResult {
 			ro := &RuleResult{Rule: "SEARCHER-RO"}
@@ -32,7 +40,16 @@ func init() {
 			so := &RuleResult{Rule: "STEP-ONLY"}
 			stepOnly(ctl, so, ctl.Fn("effctl.BadDriver"), 0, map[string]bool{"Step": true})
 			stepOnly(ctl, so, ctl.Fn("effctl.GoodDriver"), 0, map[string]bool{"Step": true})
-			return []*RuleResult{ro, so}
+			bal := &RuleResult{Rule: "BALANCE"}
+			ruleBalance(ctl, bal, "balctl.BadEarlyReturn", "Step", "Backstep")
+			good := &RuleResult{Rule: "BALANCE"}
+			ruleBalance(ctl, good, "balctl.GoodWalk", "Step", "Backstep")
+			for _, f := range good.Findings {
+				f.Key += " (Good)"
+				bal.Findings = append(bal.Findings, f)
+			}
+			bal.Undecided = append(bal.Undecided, good.Undecided...)
+			return []*RuleResult{ro, so, bal}
 		},
 	})
 }
@@ -64,4 +81,517 @@ func stepOnly(c *Ctx, r *RuleResult, fn *ssa.Function, idx int, allowed map[stri
 	if n == 0 {
 		r.undecided("%s: no instruction writes the searchers at all (Step/Backstep calls lost?)", c.short(fn))
 	}
+}
+
+// ---------------------------------------------------------------- BALANCE
+//
+// Every searcher is back in its initial state after Search if (a) Backstep undoes Step (value
+// level, not decided) and (b) each searcher receives exactly as many Backstep as Step calls on
+// every path to a return. (b) is decided here by exhibiting a local slice T with the invariant
+// "steps taken and not yet undone == len(T)": T starts empty, every complete pass of a
+// `for range searchers { Step }` loop is adjacent to exactly one one-element append to T, every
+// `for range searchers { Backstep }` pass to exactly one T = T[:len(T)-1], nothing else defines T,
+// and every return is guarded by len(T) == 0 on the current version of T.
+
+type balEvent struct {
+	kind string // "S", "K", "PUSH", "POP", "RET", "ENTRY", "DEF"
+	in   ssa.Instruction
+	blk  *ssa.BasicBlock
+}
+
+func ruleBalance(c *Ctx, r *RuleResult, fnName, stepName, backName string) {
+	fn := c.Fn(fnName)
+	P := NewProver(c, fn)
+	loops := loopsOf(fn)
+	// the searchers parameter: a slice of an interface type
+	var searchers ssa.Value
+	for _, p := range fn.Params {
+		if sl, ok := p.Type().Underlying().(*types.Slice); ok {
+			if _, isI := sl.Elem().Underlying().(*types.Interface); isI {
+				searchers = p
+			}
+		}
+	}
+	if searchers == nil {
+		r.undecided("%s: no slice-of-interface parameter (searchers) found", fnName)
+		return
+	}
+	innermost := func(b *ssa.BasicBlock) (*ssa.BasicBlock, map[*ssa.BasicBlock]bool) {
+		var bh *ssa.BasicBlock
+		var bb map[*ssa.BasicBlock]bool
+		for h, body := range loops {
+			if body[b] && (bb == nil || len(body) < len(bb)) {
+				bh, bb = h, body
+			}
+		}
+		return bh, bb
+	}
+	// 1. Step / Backstep calls sit in full range loops over searchers
+	loopKind := map[*ssa.BasicBlock]string{} // header -> "S" / "K"
+	for _, b := range fn.Blocks {
+		for _, in := range b.Instrs {
+			call, ok := in.(*ssa.Call)
+			if !ok || !call.Call.IsInvoke() {
+				continue
+			}
+			name := call.Call.Method.Name()
+			if name != stepName && name != backName {
+				continue
+			}
+			kind := "S"
+			if name == backName {
+				kind = "K"
+			}
+			h, body := innermost(b)
+			okLoop := h != nil
+			why := "not inside a loop"
+			if okLoop {
+				// exits only from the header
+				for x := range body {
+					if x == h {
+						continue
+					}
+					for _, s := range x.Succs {
+						if !body[s] {
+							okLoop, why = false, "the loop can be left early"
+						}
+					}
+				}
+				// header test  idx < len(searchers), idx a unit counter from 0 (or counter+1 from -1)
+				iff, isIf := h.Instrs[len(h.Instrs)-1].(*ssa.If)
+				var idx ssa.Value
+				if isIf {
+					if bo, ok := iff.Cond.(*ssa.BinOp); ok && bo.Op == token.LSS && P.poly(bo.Y).add(P.lenOf(searchers), -1).key() == "" && body[h.Succs[0]] {
+						idx = bo.X
+					}
+				}
+				if idx == nil {
+					okLoop, why = false, "the loop test is not index < len(searchers)"
+				} else {
+					// idx starts at 0 and advances by one
+					var ph *ssa.Phi
+					off := int64(0)
+					switch v := idx.(type) {
+					case *ssa.Phi:
+						ph = v
+					case *ssa.BinOp:
+						if p2, ok := v.X.(*ssa.Phi); ok && v.Op == token.ADD {
+							if k, ok := constInt(v.Y); ok {
+								ph, off = p2, k
+							}
+						}
+					}
+					good := false
+					if ph != nil && ph.Block() == h {
+						if li, ok := unitCounter(P, loops, ph); ok && li.header == h {
+							if i0, ok := initOf(ph, body); ok {
+								if k, ok := constInt(i0); ok && k+off == 0 {
+									good = true
+								}
+							}
+						}
+					}
+					if !good {
+						okLoop, why = false, "the loop does not visit searchers[0], [1], ... in turn"
+					}
+					// receiver is searchers[idx]
+					recvOK := false
+					if ld, ok := call.Call.Value.(*ssa.UnOp); ok && ld.Op == token.MUL {
+						if ia, ok := ld.X.(*ssa.IndexAddr); ok && ia.X == searchers && ia.Index == idx {
+							recvOK = true
+						}
+					}
+					if !recvOK {
+						okLoop, why = false, "the receiver is not searchers[index]"
+					}
+				}
+				for _, p := range h.Preds {
+					if body[p] && !(b == p || b.Dominates(p)) {
+						okLoop, why = false, "the call is skipped on some iterations"
+					}
+				}
+			}
+			r.inst("%s: invoke %s inside a full pass over the searchers", fnName, name)
+			if !okLoop && (strings.HasPrefix(why, "the loop test is not") || strings.HasPrefix(why, "the receiver is not") || why == "not inside a loop") {
+				// the loop was not recognised (e.g. searchers captured by a closure): no verdict
+				r.undecided("%s: the loop calling %s is not recognised as a pass over the searchers parameter (%s)", fnName, name, why)
+				return
+			}
+			r.oblig(okLoop)
+			if !okLoop {
+				r.find(fnName+":"+name+" not applied to every searcher", c.instrPos(call), "%s calls %s in a way that does not give every searcher exactly one call per pass (%s)", fnName, name, why)
+				return
+			}
+			if prev, dup := loopKind[h]; dup && prev != kind {
+				r.undecided("%s: one loop calls both %s and %s", fnName, stepName, backName)
+				return
+			}
+			loopKind[h] = kind
+		}
+	}
+	nS, nK := 0, 0
+	for _, k := range loopKind {
+		if k == "S" {
+			nS++
+		} else {
+			nK++
+		}
+	}
+	if nS == 0 || nK == 0 {
+		r.undecided("%s: Step loops %d, Backstep loops %d: nothing to balance", fnName, nS, nK)
+		return
+	}
+	inSK := func(b *ssa.BasicBlock) *ssa.BasicBlock { // header of the S/K loop containing b
+		for h := range loopKind {
+			if loops[h][b] {
+				return h
+			}
+		}
+		return nil
+	}
+	// 2. candidate tracking slices: webs of slice-typed phis
+	tried := 0
+	var lastWhy string
+	for _, b := range fn.Blocks {
+		for _, in := range b.Instrs {
+			seed, ok := in.(*ssa.Phi)
+			if !ok {
+				break
+			}
+			if _, isSl := seed.Type().Underlying().(*types.Slice); !isSl {
+				continue
+			}
+			web := map[ssa.Value]string{} // value -> PHI / PUSH / POP / INIT
+			okWeb := true
+			var work []ssa.Value
+			work = append(work, seed)
+			for len(work) > 0 && okWeb {
+				v := work[len(work)-1]
+				work = work[:len(work)-1]
+				if _, seen := web[v]; seen {
+					continue
+				}
+				switch x := v.(type) {
+				case *ssa.Phi:
+					web[v] = "PHI"
+					work = append(work, x.Edges...)
+				case *ssa.Call:
+					bi, isB := x.Call.Value.(*ssa.Builtin)
+					if !isB || bi.Name() != "append" || len(x.Call.Args) != 2 || P.lenOf(x.Call.Args[1]).add(constP(-1), 1).key() != "" {
+						okWeb = false
+						break
+					}
+					web[v] = "PUSH"
+					work = append(work, x.Call.Args[0])
+				case *ssa.Slice:
+					if ln, isK := P.lenOf(x).isConst(); isK && ln == 0 {
+						if _, isPtr := x.X.Type().Underlying().(*types.Pointer); isPtr {
+							web[v] = "INIT"
+							break
+						}
+					}
+					if x.Low == nil && x.High != nil && P.poly(x.High).add(P.lenOf(x.X), -1).add(constP(1), 1).key() == "" {
+						web[v] = "POP"
+						work = append(work, x.X)
+						break
+					}
+					okWeb = false
+				case *ssa.MakeSlice:
+					if ln, isK := P.poly(x.Len).isConst(); isK && ln == 0 {
+						web[v] = "INIT"
+					} else {
+						okWeb = false
+					}
+				case *ssa.Const:
+					if x.Value == nil {
+						web[v] = "INIT"
+					} else {
+						okWeb = false
+					}
+				default:
+					okWeb = false
+				}
+			}
+			hasPush, hasPop := false, false
+			for _, k := range web {
+				if k == "PUSH" {
+					hasPush = true
+				}
+				if k == "POP" {
+					hasPop = true
+				}
+			}
+			if !okWeb || !hasPush || !hasPop {
+				continue
+			}
+			tried++
+			if ok, why := balanceWith(c, fn, P, loops, loopKind, inSK, web); ok {
+				r.inst("%s: steps taken and not undone == len(%s): every Step pass pairs with one push, every Backstep pass with one pop, returns only when empty", fnName, valName(seed))
+				r.oblig(true)
+				return
+			} else {
+				lastWhy = valName(seed) + ": " + why
+			}
+		}
+	}
+	r.inst("%s: Step/Backstep balance", fnName)
+	r.oblig(false)
+	if tried == 0 {
+		r.Obligations--
+		r.undecided("%s: no local slice that is only pushed and popped by one element was found (kept in a captured variable?); the numbers of %s and %s calls cannot be matched by this rule", fnName, stepName, backName)
+	} else {
+		r.find(fnName+":Step/Backstep not balanced", c.pos(fn.Pos()), "%s: the searchers are not provably back-stepped as often as they were stepped on every path to a return (%s): a searcher can be left mid-word, so reusing it gives different results", fnName, lastWhy)
+	}
+}
+
+// balanceWith checks the pairing conditions for one tracking web.
+func balanceWith(c *Ctx, fn *ssa.Function, P *Prover, loops map[*ssa.BasicBlock]map[*ssa.BasicBlock]bool, loopKind map[*ssa.BasicBlock]string, inSK func(*ssa.BasicBlock) *ssa.BasicBlock, web map[ssa.Value]string) (bool, string) {
+	evAt := map[ssa.Instruction]string{}
+	phiBlocks := map[*ssa.BasicBlock]bool{}
+	for v, k := range web {
+		in, ok := v.(ssa.Instruction)
+		if !ok {
+			continue
+		}
+		switch k {
+		case "PUSH", "POP":
+			if inSK(in.Block()) != nil {
+				return false, "the stack is changed inside a Step/Backstep loop"
+			}
+			evAt[in] = k
+		case "PHI":
+			phiBlocks[in.Block()] = true
+		}
+	}
+	// forward: first events after position (b, i)
+	var forward func(b *ssa.BasicBlock, i int, seen map[*ssa.BasicBlock]bool, out map[string]bool)
+	forward = func(b *ssa.BasicBlock, i int, seen map[*ssa.BasicBlock]bool, out map[string]bool) {
+		for k := i; k < len(b.Instrs); k++ {
+			in := b.Instrs[k]
+			if e, ok := evAt[in]; ok {
+				out[e] = true
+				return
+			}
+			if _, ok := in.(*ssa.Return); ok {
+				out["RET"] = true
+				return
+			}
+		}
+		for _, s := range b.Succs {
+			if kind, isL := loopKind[s]; isL && !loops[s][b] {
+				out[kind] = true
+				continue
+			}
+			if !seen[s] {
+				seen[s] = true
+				forward(s, 0, seen, out)
+			}
+		}
+	}
+	// backward: last events before position (b, i) ; i = index of the instruction itself
+	var backward func(b *ssa.BasicBlock, i int, seen map[*ssa.BasicBlock]bool, out map[string]bool)
+	backward = func(b *ssa.BasicBlock, i int, seen map[*ssa.BasicBlock]bool, out map[string]bool) {
+		for k := i - 1; k >= 0; k-- {
+			if e, ok := evAt[b.Instrs[k]]; ok {
+				out[e] = true
+				return
+			}
+		}
+		if len(b.Preds) == 0 {
+			out["ENTRY"] = true
+			return
+		}
+		for _, p := range b.Preds {
+			if kind, isL := loopKind[p]; isL && !loops[p][b] {
+				out[kind] = true // b is the exit successor of an S/K loop
+				continue
+			}
+			if !seen[p] {
+				seen[p] = true
+				backward(p, len(p.Instrs), seen, out)
+			}
+		}
+	}
+	only := func(m map[string]bool, k string) bool { return len(m) == 1 && m[k] }
+	// S loops <-> PUSH, K loops <-> POP (either order, but consistently adjacent)
+	for h, kind := range loopKind {
+		partner := "PUSH"
+		if kind == "K" {
+			partner = "POP"
+		}
+		var exit *ssa.BasicBlock
+		for _, s := range h.Succs {
+			if !loops[h][s] {
+				exit = s
+			}
+		}
+		after := map[string]bool{}
+		forward(exit, 0, map[*ssa.BasicBlock]bool{exit: true}, after)
+		before := map[string]bool{}
+		for _, p := range h.Preds {
+			if !loops[h][p] {
+				backward(p, len(p.Instrs), map[*ssa.BasicBlock]bool{p: true}, before)
+			}
+		}
+		if !(only(after, partner) || only(before, partner)) {
+			return false, fmt.Sprintf("a pass of %s over the searchers is not adjacent to exactly one %s of the stack (followed by %v, preceded by %v)", map[string]string{"S": "Step", "K": "Backstep"}[kind], map[string]string{"PUSH": "push", "POP": "pop"}[partner], keys(after), keys(before))
+		}
+	}
+	for in, e := range evAt {
+		partner := "S"
+		if e == "POP" {
+			partner = "K"
+		}
+		idx := 0
+		for i, x := range in.Block().Instrs {
+			if x == in {
+				idx = i
+			}
+		}
+		after := map[string]bool{}
+		forward(in.Block(), idx+1, map[*ssa.BasicBlock]bool{}, after)
+		before := map[string]bool{}
+		backward(in.Block(), idx, map[*ssa.BasicBlock]bool{}, before)
+		if !(only(after, partner) || only(before, partner)) {
+			return false, fmt.Sprintf("a %s of the stack is not adjacent to exactly one pass of %s (followed by %v, preceded by %v)", strings.ToLower(e), map[string]string{"S": "Step", "K": "Backstep"}[partner], keys(after), keys(before))
+		}
+	}
+	// returns: guarded by len(w) == 0 for the current version w
+	for _, b := range fn.Blocks {
+		ret, ok := b.Instrs[len(b.Instrs)-1].(*ssa.Return)
+		if !ok {
+			continue
+		}
+		before := map[string]bool{}
+		backward(b, len(b.Instrs)-1, map[*ssa.BasicBlock]bool{}, before)
+		if only(before, "ENTRY") {
+			continue // nothing stepped yet
+		}
+		guarded := false
+		for x := b; x != nil && !guarded; x = x.Idom() {
+			if len(x.Preds) != 1 {
+				continue
+			}
+			p := x.Preds[0]
+			iff, isIf := p.Instrs[len(p.Instrs)-1].(*ssa.If)
+			if !isIf {
+				continue
+			}
+			bo, isBo := iff.Cond.(*ssa.BinOp)
+			if !isBo {
+				continue
+			}
+			onTrue := p.Succs[0] == x
+			if !((bo.Op == token.EQL && onTrue) || (bo.Op == token.NEQ && !onTrue)) {
+				continue
+			}
+			if k, isK := constInt(bo.Y); !isK || k != 0 {
+				continue
+			}
+			lc, isCall := bo.X.(*ssa.Call)
+			if !isCall {
+				continue
+			}
+			bi, isB := lc.Call.Value.(*ssa.Builtin)
+			if !isB || bi.Name() != "len" {
+				continue
+			}
+			w := lc.Call.Args[0]
+			if _, inWeb := web[w]; !inWeb {
+				continue
+			}
+			// w must be the current version at the test: no push/pop between its definition and the test,
+			// and none between the test and the return
+			mid := map[string]bool{}
+			backward(p, len(p.Instrs), map[*ssa.BasicBlock]bool{}, mid)
+			okCur := true
+			if win, isIn := w.(ssa.Instruction); isIn {
+				// walking back from the test, the first definition of the web met on every path is w itself
+				okCur = firstDefIs(p, web, win)
+			}
+			tail := map[string]bool{}
+			backwardUntil(b, len(b.Instrs)-1, p, evAt, tail)
+			if okCur && len(tail) == 0 {
+				guarded = true
+			}
+			_ = mid
+		}
+		if !guarded {
+			return false, fmt.Sprintf("the return at %s is reachable while the stack may be non-empty", c.instrPos(ret))
+		}
+	}
+	return true, ""
+}
+
+func keys(m map[string]bool) []string {
+	var out []string
+	for k := range m {
+		out = append(out, k)
+	}
+	sort.Strings(out)
+	return out
+}
+
+// firstDefIs: going backwards from the end of block `from`, the first definition of a web value
+// encountered on every path is the instruction w.
+func firstDefIs(from *ssa.BasicBlock, web map[ssa.Value]string, w ssa.Instruction) bool {
+	ok := true
+	seen := map[*ssa.BasicBlock]bool{}
+	var walk func(b *ssa.BasicBlock)
+	walk = func(b *ssa.BasicBlock) {
+		if seen[b] || !ok {
+			return
+		}
+		seen[b] = true
+		for k := len(b.Instrs) - 1; k >= 0; k-- {
+			in := b.Instrs[k]
+			if v, isV := in.(ssa.Value); isV {
+				if _, inWeb := web[v]; inWeb {
+					if in != w {
+						// another version defined later than w on this path, unless it is a phi sharing w's block
+						if _, isPhi := in.(*ssa.Phi); isPhi && in.Block() == w.Block() {
+							continue
+						}
+						ok = false
+					}
+					if in == w {
+						return
+					}
+					return
+				}
+			}
+		}
+		if len(b.Preds) == 0 {
+			ok = false
+			return
+		}
+		for _, p := range b.Preds {
+			walk(p)
+		}
+	}
+	walk(from)
+	return ok
+}
+
+// backwardUntil collects push/pop events met walking back from (b, i) until block `stop` is reached.
+func backwardUntil(b *ssa.BasicBlock, i int, stop *ssa.BasicBlock, evAt map[ssa.Instruction]string, out map[string]bool) {
+	seen := map[*ssa.BasicBlock]bool{}
+	var walk func(b *ssa.BasicBlock, i int)
+	walk = func(b *ssa.BasicBlock, i int) {
+		for k := i - 1; k >= 0; k-- {
+			if e, ok := evAt[b.Instrs[k]]; ok {
+				out[e] = true
+			}
+		}
+		if b == stop {
+			return
+		}
+		for _, p := range b.Preds {
+			if !seen[p] {
+				seen[p] = true
+				walk(p, len(p.Instrs))
+			}
+		}
+	}
+	walk(b, i)
 }
